@@ -86,12 +86,10 @@ func TestVerifC20ProviderLogs(t *testing.T) {
 		}
 		// the shutdown request: must be honoured whatever happened before
 		w.callShutdown(1)
-		select {
-		case <-w.runDone:
-		case <-time.After(watchdog):
+		if !v20WaitDone(w.runDone, watchdog) {
 			if wedge == "" {
 				wedge = "shutdown"
-			}
+	}
 		}
 		if wedge != "" && !w.returned() {
 			w.wedged = true
@@ -125,6 +123,7 @@ func TestVerifC20ProviderLogs(t *testing.T) {
 			out.Linef("stat provlog_wedged 1")
 		}
 		out.Linef("nt")
+		v20EmitRetries(out)
 		out.Linef("end")
 		out.Flush()
 		if w.wedged {
